@@ -212,7 +212,7 @@ def gen_command_script(rnd):
         elif k == 8:
             opts = ""
             if rnd.random() < 0.6:
-                opts += " :weight %s" % rnd.choice(["3", "1.5", "(- 2)", "0"])
+                opts += " :weight %s" % rnd.choice(["3", "1.5", "(- 2)", "0", "1.0", "1"])
             if rnd.random() < 0.6:
                 opts += " :id %s" % rnd.choice(["goal", "g2", "|my goal|", "|goal :weight 7|", "|a(b|"])
             body.append("(assert-soft %s%s)" % (w.term(forms[fi % len(forms)]), opts))
@@ -276,10 +276,10 @@ def compare_commands(c1, c2, env):
         if isinstance(x, FNode) or isinstance(y, FNode):
             if x is y:
                 return True
-            # numeric option values (e.g. :weight 1 vs 1.0) are equivalent when they denote the same number
+            # the default weight of assert-soft is Int 1 whatever the logic; written back as ":weight 1" it is read as
+            # Real 1.0 in logics whose numerals are Real - the only numeric difference that is tolerated
             try:
-                return (x.is_int_constant() or x.is_real_constant()) and (y.is_int_constant() or y.is_real_constant()) \
-                    and x.constant_value() == y.constant_value()
+                return x.is_int_constant(1) and y.is_real_constant(1)
             except Exception:
                 return False
         if isinstance(x, (list, tuple)) and isinstance(y, (list, tuple)):
